@@ -3485,3 +3485,59 @@ func scenUncommittedDemotionTimeoutNow(e *engineA) error {
 	e.sleepHB(3, 6)
 	return e.finish()
 }
+
+func init() { scenarios["two-actions-one-request"] = scenTwoActionsOneRequest }
+
+// scenTwoActionsOneRequest (C08): two voters of a five-node cluster are dead,
+// and one membership request asks for both to go: a forced removal of the one
+// and a forced removal (or a demotion) of the other. The leader may carry out
+// one of the two at once; the configuration that does so has to be committed
+// before the other action produces the next one, and each configuration
+// follows from its predecessor by one voter.
+func scenTwoActionsOneRequest(e *engineA) error {
+	e.prof = profiles["member"]
+	if err := e.boot(5); err != nil {
+		return err
+	}
+	e.cl.startInfoSampler(e.hb() / 2)
+	l := e.cl.leader()
+	if l == nil {
+		return fmt.Errorf("no leader")
+	}
+	for i := 0; i < 3; i++ {
+		e.cl.fsmOp(1, l, "update")
+	}
+	fs := e.others(l)
+	e.rng.Shuffle(len(fs), func(i, j int) { fs[i], fs[j] = fs[j], fs[i] })
+	x, y := fs[0], fs[1]
+	e.rc.emit(&ev.Rec{K: "fault", Op: "two-voters-die-and-one-request-removes-both", Nid: x.nid, ID: y.nid})
+	for _, n := range []*Node{x, y} {
+		n.shutdown(30 * time.Second)
+		e.parked[n.nid] = true
+	}
+	if e.cl.leader() != l {
+		return fmt.Errorf("leader changed")
+	}
+	second := []raft.Action{raft.ForceRemove, raft.ForceRemove, raft.Demote}[e.rng.Intn(3)]
+	if e.rng.Intn(2) == 0 {
+		e.startClients(2, map[string]int{"update": 3, "read": 1})
+	}
+	err := e.cl.changeConfig(l, fmt.Sprintf("forceremove(%d) %v(%d)", x.nid, second, y.nid), func(c *raft.Config) error {
+		if err := c.SetAction(x.nid, raft.ForceRemove); err != nil {
+			return err
+		}
+		return c.SetAction(y.nid, second)
+	})
+	if err != nil {
+		return fmt.Errorf("request: %v", err)
+	}
+	e.waitFor(120, func() bool {
+		li, ok := l.info(false)
+		return ok && li.Configs.IsStable() && li.Configs.IsCommitted()
+	})
+	for i := 0; i < 3; i++ {
+		e.cl.fsmOp(1, l, "update")
+	}
+	e.sleepHB(2, 4)
+	return e.finish()
+}
